@@ -19,8 +19,12 @@ Scn == [alg : Algs, typ : {"SAMLRequest", "SAMLResponse"}, relay : RelayClasses,
         \* the certificate handed to the verifier: the signer's, another entity's, another entity's that has expired;
         \* backend: whose crypto object runs the check -- another entity's, or (co-hosted entities, the library's own
         \* tests) the signer's, which holds the signing key
-        cert : {"own", "other", "other_expired"}, backend : {"other", "signer"}]
-WellFormed(s) == s.backend = "signer" => s.mut \in {"none", "msg_changed"} /\ s.relay \in {"none", "amp"}
+        cert : {"own", "other", "other_expired"}, backend : {"other", "signer"},
+        \* prior: the receiver has just checked the very same parsed query under another certificate (it loops over the
+        \* certificates metadata holds for the peer).  A check is a function of its arguments: it leaves the query as it was.
+        prior : {"none", "otherCertFirst"}]
+WellFormed(s) == /\ s.backend = "signer" => s.mut \in {"none", "msg_changed"} /\ s.relay \in {"none", "amp"}
+                 /\ s.prior # "none" => s.backend = "other" /\ s.mut \in {"none", "msg_changed", "relay_changed"} /\ s.relay \in {"none", "amp"}
 
 \* how an encoder spells a character class (abstractly: two spellings are equal iff the same token)
 Spell(enc, class) == CASE class = "tilde" -> IF enc = "form_backport" THEN "pct" ELSE "literal"
